@@ -78,7 +78,8 @@ def indexed(path, i):
 class RefDecoder:
     MAX_ZERO_WIDTH_ELEMS = 4096
 
-    def __init__(self, layout, data, check_values=True):
+    def __init__(self, layout, data, check_values=True, root=""):
+        self.root = root
         self.L = layout
         self.data = bytes(data)
         self.pos = 0
@@ -338,7 +339,7 @@ class RefDecoder:
         size = self.prim(size_path, self._ftype("Command", "commandSize"))
         rc = self.open_region(size_path, size, start=start)
         cc = self.prim(child(path, "commandCode"), self._ftype("Command", "commandCode"))
-        if path == "":
+        if path == self.root:
             self.command_code = cc
         if cc not in L.cc_by_code:
             self.undefined("valid command code without layout")
@@ -404,19 +405,19 @@ class RefDecoder:
             n += 1
 
 
-def ref_decode(layout, tname, data, command_code=None, enc=False, check_values=True):
-    """Decode `data` as `tname` with the reference model.  Returns a Result."""
-    d = RefDecoder(layout, data, check_values=check_values)
+def ref_decode(layout, tname, data, command_code=None, enc=False, check_values=True, root=""):
+    """Decode `data` as `tname` with the reference model.  Returns a Result.  `root` is the string form of the caller's root path."""
+    d = RefDecoder(layout, data, check_values=check_values, root=root)
     res = d.res
     try:
         if tname == "CommandResponseStream":
-            d.stream("")
+            d.stream(root)
         elif tname == "Command":
-            d.command("")
+            d.command(root)
         elif tname == "Response":
-            d.response("", command_code, enc)
+            d.response(root, command_code, enc)
         else:
-            d.walk(tname, "")
+            d.walk(tname, root)
         if tname != "CommandResponseStream" and d.pos < len(d.data):
             d._stop(
                 [{"kind": "superfluous", "remaining": d._rest(), "command_code": d.command_code}],
